@@ -120,6 +120,8 @@ func SchemaAtoms() []SchemaAtom {
 	a.Sample, a.Samples, a.Docs = "xxx", []any{"xx", "xxx", "xxxx"}, []any{"x", "xxxxx", "xyx"}
 	add("string.enum", J{"type": "string", "enum": []any{"red", "green", "blue"}})
 	add("string.enum-with-empty", J{"type": "string", "enum": []any{"", "on", "off"}})
+	add("string.enum-escapes", J{"type": "string", "enum": []any{"a<b", "x&y", "q\"uote", "back\\slash", "plain"}})
+	add("string.enum-commas", J{"type": "string", "enum": []any{"a, b", "c d", "[e]"}})
 	add("string.date.enum", J{"type": "string", "format": "date", "enum": []any{"2021-03-04", "1999-12-31"}})
 	add("string.unicode-len", J{"type": "string", "minLength": n("2"), "maxLength": n("3")}).Docs = []any{"é", "éé", "日本語", "日本語字", "👍", "👍👍"}
 	add("string.date-time.minLength", J{"type": "string", "format": "date-time", "minLength": n("1")})
